@@ -4,6 +4,9 @@ import json, os
 HERE = os.path.dirname(os.path.abspath(__file__))
 
 CHECKS = {
+ "C14": ("seeded stream-fault injection (truncation, hostile size fields, bit flips, noise) into reference headers; independent 64-bit chunk walker plus prefix/incremental-reader self-consistency oracles; ASan exact-size buffers",
+         "Seeded exploration of byte streams: well-formed headers from a reference writer subjected to tape-chosen fault sequences, and pure noise, each decoded from an exact-size heap block; accepted lengths must be at least the minimum, equal the structural length of consistent headers, be exact, and every proper prefix of an accepted header (all are tried) plus a chunked incremental reader must never succeed early; the three helper functions are run on every resulting structure with allocation failures injected.",
+         "Which malformed inputs are rejected is not judged (the property does not prescribe it); the structural-length oracle applies only to headers the independent walker finds consistent."),
  "C09": ("seeded operation histories checked step by step against a vector reference model; tape shrinking and exact replay",
          "Seeded exploration of list operation histories (8 nodes, 3 lists, 3 iterators, up to 40 operations) with a vector-of-ids reference model compared after every operation: full traversal, every return value, iterator positions, cleared links. History-only: this property has no fault or schedule dimension and the evidence says so.",
          "Iterators are exercised only while valid by the property's scope (no mutation of their list through another path); ASan/UBSan and a step budget guard memory safety and termination."),
